@@ -4,7 +4,15 @@ package collect
 
 import (
 	"fmt"
+	"sync"
 	"testing"
+	"time"
+
+	"github.com/jonboulle/clockwork"
+
+	"github.com/honeycombio/refinery/config"
+	"github.com/honeycombio/refinery/sample"
+	"github.com/honeycombio/refinery/types"
 
 	"github.com/honeycombio/refinery/internal/verifkit"
 )
@@ -157,7 +165,7 @@ func TestVerif_C02(t *testing.T) {
 	run := verifkit.Start(t, "C02", "collect")
 	defer run.Finish()
 	defer e1TuneRuntime(run)()
-	run.Rule("same seeded lifecycle histories as C01 plus tiny-queue histories (1–3 slots per worker, bursts handed over while the workers are parked ⇒ deterministic ErrWouldBlock) and dry-run histories; after every step the worker buffers are compared with the forwarded ids; non-trivial = history has a late span, a kept and a dropped trace (or, tiny-queue label, at least one refused span and one kept trace); distinct = abstract history signature")
+	run.Rule("slow-decisions list: single-worker histories in which a shim around the real sampler advances the fake clock by 0–300 ms per decision while 8–16 traces fall due at one tick (non-trivial = more than 1 s of fake time spent in decisions and a kept trace); other lists: same seeded lifecycle histories as C01 plus tiny-queue histories (1–3 slots per worker, bursts handed over while the workers are parked ⇒ deterministic ErrWouldBlock) and dry-run histories; after every step the worker buffers are compared with the forwarded ids; non-trivial = history has a late span, a kept and a dropped trace (or, tiny-queue label, at least one refused span and one kept trace); distinct = abstract history signature")
 	run.Assume("accepted span = AddSpan/AddSpanFromPeer returned nil; refused spans are excluded and counted")
 	run.Assume("bounded progress: TraceTimeout + SendDelay + ceil(backlog/MaxExpiredTraces)+1 send ticks of virtual time after the last input")
 	run.Assume("kept/dropped is the collector's own recorded decision read through CheckTrace once at the end of the history")
@@ -232,15 +240,180 @@ func TestVerif_C02(t *testing.T) {
 			run.Sample(map[string]any{"label": label, "config": h.Cfg.describe(), "ops": len(e.Ops()), "traces": len(f.Order), "kept": kept, "dropped": dropped, "late": late, "refused": refused})
 		}
 	}
-	run.Cases("lifecycle", run.N(120, 1500), func(i int, rng *verifkit.Rand) {
+	run.Cases("lifecycle", run.N(110, 1500), func(i int, rng *verifkit.Rand) {
 		one("lifecycle", rng, E1Profile{MaxSteps: steps, SmallKept: rng.Chance(0.05)}, i)
 	})
-	run.Cases("tiny-queues", run.N(50, 500), func(i int, rng *verifkit.Rand) {
+	run.Cases("tiny-queues", run.N(45, 500), func(i int, rng *verifkit.Rand) {
 		one("tiny", rng, E1Profile{MaxSteps: steps, TinyQueues: true}, i)
 	})
-	run.Cases("dry-run", run.N(30, 500), func(i int, rng *verifkit.Rand) {
+	run.Cases("dry-run", run.N(25, 500), func(i int, rng *verifkit.Rand) {
 		one("dry", rng, E1Profile{MaxSteps: steps, DryRun: true}, i)
 	})
+	run.Cases("slow-decisions", run.N(30, 600), func(i int, rng *verifkit.Rand) { c02Slow(t, run, rng, i) })
+}
+
+// ---- slow decisions --------------------------------------------------------------------------------
+//
+// A sampler shim around the REAL sampler (built by the real SamplerFactory) that "takes" 0–300 ms of FAKE time
+// per decision by advancing the shared FakeClock inside GetSampleRate, with 8–16 traces of ONE worker expiring at
+// the same tick: a decision pass overruns one or several send ticks on the collector's own clock (slow
+// sampler / back-pressure). Single-worker collector, so no other worker's ticker is involved; E1's tick count is
+// re-aligned from the clock (syncTicks), a tick the overrunning worker finds buffered afterwards is processed
+// like in production. Oracle unchanged: c02Check + the per-step buffer hook.
+
+// c02adInject installs sampler s for samplerKey in worker w. Only while the worker is parked.
+func c02adInject(w *CollectorWorker, samplerKey string, s sample.Sampler) {
+	w.datasetSamplers[samplerKey] = s
+}
+
+type c02SlowShim struct {
+	inner sample.Sampler
+	clock *clockwork.FakeClock
+	mu    sync.Mutex
+	rng   *verifkit.Rand
+	maxMs int
+	calls int
+	spent time.Duration
+}
+
+func (s *c02SlowShim) Start() error                       { return nil }
+func (s *c02SlowShim) GetKeyFields() ([]string, []string) { return s.inner.GetKeyFields() }
+func (s *c02SlowShim) GetSampleRate(tr *types.Trace) (uint, bool, string, string) {
+	s.mu.Lock()
+	d := time.Duration(s.rng.Range(0, s.maxMs)) * time.Millisecond
+	s.calls++
+	s.spent += d
+	s.mu.Unlock()
+	if d > 0 {
+		s.clock.Advance(d) // the decision "takes" d on the collector's clock
+	}
+	return s.inner.GetSampleRate(tr)
+}
+
+func c02Slow(t *testing.T, run *verifkit.Run, rng *verifkit.Rand, i int) {
+	tick := 100 * time.Millisecond
+	def := e1GenSampler(rng, true) // deterministic 1/N or rules on verif.keep
+	cfg := E1Config{Workers: 1, AddRuleReason: rng.Bool(),
+		Traces: config.TracesConfig{SendTicker: config.Duration(tick), SendDelay: config.Duration(verifkit.Pick(rng, 200, 300) * int(time.Millisecond)),
+			TraceTimeout: config.Duration(verifkit.Pick(rng, 1000, 2000) * int(time.Millisecond)), SpanLimit: 0, MaxExpiredTraces: uint(verifkit.Pick(rng, 0, 0, 3000, 6))},
+		Samplers: map[string]*config.V2SamplerChoice{"env-a": def.Choice}}
+	h := &E1History{Cfg: cfg, Defs: map[string]E1SamplerDef{"env-a": def}, MinKept: 10000}
+	e := e1Start(t, cfg)
+	defer e.Stop()
+	shim := &c02SlowShim{clock: e.FakeClock(), rng: rng.Fork("slow"), maxMs: 300}
+	e.Inspect(func(*E1View) {
+		shim.inner = e.sf.GetSamplerImplementationForKey("env-a")
+		for _, w := range e1adWorkers(e.coll) {
+			c02adInject(w, "env-a", shim)
+		}
+	})
+	if shim.inner == nil {
+		run.Inconclusive("slow-decisions: sampler factory returned no sampler")
+		return
+	}
+	// same per-step hook as the other lists
+	forwardedAt := 0
+	forwarded := map[string]int{}
+	e.OnQuiesce(func(v *E1View) {
+		for _, ev := range e.EventsFrom(forwardedAt) {
+			if _, ok := forwarded[ev.ID]; !ok {
+				forwarded[ev.ID] = ev.Step
+			}
+			forwardedAt = ev.Seq + 1
+		}
+		for _, b := range v.Buffered() {
+			if b.Sent {
+				run.Violation("C02/decided-trace-left-in-buffer", "a trace marked Sent is still in a worker's buffer at a quiescent point",
+					c02Witness{Config: cfg.describe(), Buffered: []E1Buffered{b}, Ops: e.Ops()})
+			}
+			for _, id := range b.SpanIDs {
+				if st, ok := forwarded[id]; ok {
+					run.Violation("C02/span-forwarded-before-its-trace-was-decided", fmt.Sprintf("span %s was forwarded at step %d while its trace is still undecided in the buffer at step %d", id, st, e.Step()),
+						c02Witness{Config: cfg.describe(), Trace: b.Trace, Buffered: []E1Buffered{b}, Ops: e.Ops()})
+				}
+			}
+		}
+	})
+	type plan struct {
+		id   string
+		keep bool
+		root bool
+	}
+	var plans []*plan
+	mk := func(pl *plan, kind string) E1Span {
+		s := e.NewSpan(pl.id, kind)
+		s.Peer = rng.Chance(0.3)
+		s.Rate = uint(verifkit.Pick(rng, 0, 1, 2))
+		s.Fields = map[string]any{"verif.keep": e1KeepValue(pl.keep), "svc": "api"}
+		return s
+	}
+	// phase 1: n traces handed over in one held burst (one instant): the rooted ones fall due together SendDelay
+	// later, the rootless ones together TraceTimeout later
+	n := rng.Range(8, 16)
+	var burst []E1Span
+	for j := 0; j < n; j++ {
+		pl := &plan{id: rng.Hex(32), keep: rng.Chance(0.7), root: rng.Chance(0.6)}
+		plans = append(plans, pl)
+		for k := rng.Range(0, 2); k > 0; k-- {
+			burst = append(burst, mk(pl, "child"))
+		}
+		if pl.root {
+			burst = append(burst, mk(pl, "root"))
+		} else {
+			burst = append(burst, mk(pl, "child"))
+		}
+	}
+	e.Burst(burst, true)
+	sd, tt := e.EffectiveTimes()
+	// phase 2: cross the SendDelay deadline — the decision pass over the rooted traces overruns ticks
+	e.Advance(sd + tick)
+	e.quiesceLoose()
+	// phase 3: late spans for decided traces, a few more rooted traces (a second overrunning pass)
+	for j := rng.Range(2, 6); j > 0 && e.Failed() == ""; j-- {
+		_ = e.AddSpan(mk(plans[rng.Intn(len(plans))], verifkit.Pick(rng, "child", "root")))
+	}
+	var burst2 []E1Span
+	for j := rng.Range(0, 9); j > 0; j-- {
+		pl := &plan{id: rng.Hex(32), keep: rng.Chance(0.7), root: true}
+		plans = append(plans, pl)
+		burst2 = append(burst2, mk(pl, "child"), mk(pl, "root"))
+	}
+	if len(burst2) > 0 {
+		e.Burst(burst2, true)
+	}
+	// phase 4: cross the TraceTimeout deadline of the rootless traces (and the second rooted group), then flush
+	e.Advance(tt)
+	e.quiesceLoose()
+	for j := rng.Range(0, 4); j > 0 && e.Failed() == ""; j-- {
+		_ = e.AddSpan(mk(plans[rng.Intn(len(plans))], "child"))
+	}
+	e.Flush(false)
+	e.quiesceLoose()
+	if e.Failed() != "" {
+		run.Inconclusive(e.Failed())
+		return
+	}
+	f := e.Finalize()
+	if e.Failed() != "" {
+		run.Inconclusive(e.Failed())
+		return
+	}
+	mid := 0
+	c02Check(run, h, e, f, &mid)
+	_, late, kept, dropped := h.Abstract(f)
+	overrun := shim.spent > time.Second
+	if overrun && kept > 0 {
+		run.Nontrivial(fmt.Sprintf("slow %s n%d me%d spent%ds late%d d%d", def.Kind, n/4, cfg.Traces.MaxExpiredTraces, int(shim.spent/time.Second), min(late, 3), min(dropped, 2)))
+	}
+	run.Count("slow_decisions", int64(shim.calls))
+	run.Count("slow_histories_with_more_than_1s_in_decisions", map[bool]int64{true: 1}[overrun])
+	run.Count("spans_accepted", int64(c01AcceptedC02(f)))
+	run.Count("events_forwarded", int64(e.EventCount()))
+	run.Count("steps", int64(e.Step()))
+	run.Count("traces", int64(len(f.Order)))
+	if i < 1 {
+		run.Sample(map[string]any{"label": "slow-decisions", "config": cfg.describe(), "traces": len(f.Order), "kept": kept, "dropped": dropped, "decisions": shim.calls, "fake_time_in_decisions": shim.spent.String()})
+	}
 }
 
 func c01AcceptedC02(f *E1Final) int {
